@@ -853,6 +853,19 @@ func (s *Std) Health2xxBetween(a, b int64) bool {
 	return false
 }
 
+// LastHealth2xxIn returns the send time of the latest 2xx health answer in (a, b), 0 if none.
+func (s *Std) LastHealth2xxIn(a, b int64) int64 {
+	s.mu.Lock()
+	defer s.mu.Unlock()
+	var last int64
+	for _, t := range s.health2xx {
+		if t > a && t < b && t > last {
+			last = t
+		}
+	}
+	return last
+}
+
 // ProxyRecords returns the records that are neither health nor model-listing requests.
 func (s *Std) ProxyRecords() []*Record {
 	var out []*Record
